@@ -51,6 +51,8 @@ class Builder:
         self.views_tensors_only = False
         self.recency_bias = True
         self.allow_empty = False
+        self.const_flag_odds = 11
+        self.allow_const_false = False
 
     # ---- low-level emit
     def _emit(self, st_):
@@ -466,8 +468,12 @@ def step_unary(b: Builder):
 def draw_const_flag(b):
     if not b.allow_const_flag:
         return None
-    r = b.draw(st.integers(0, 11))
-    return True if r == 0 else None
+    r = b.draw(st.integers(0, b.const_flag_odds))
+    if r == 0:
+        return True
+    if r == 1 and b.allow_const_false:
+        return False
+    return None
 
 
 def step_binary(b: Builder):
@@ -780,10 +786,13 @@ def shape_variant(draw, base):
 
 @st.composite
 def functional_program(draw, max_ops=10, min_ops=1, max_elems=24, allow_int=True, allow_const_flag=True,
-                       allow_const_view=True, dtypes=("float64",), leaf_kinds=None):
+                       allow_const_view=True, dtypes=("float64",), leaf_kinds=None, const_flag_odds=11,
+                       allow_const_false=False):
     b = Builder(draw, max_elems=max_elems, allow_int=allow_int)
     b.allow_const_flag = allow_const_flag
     b.allow_const_view = allow_const_view
+    b.const_flag_odds = const_flag_odds
+    b.allow_const_false = allow_const_false
     base = draw_shape(draw, cap=max_elems // 2 if max_elems >= 8 else max_elems)
     nleaves = draw(st.integers(1, 4))
     kinds = leaf_kinds or ["var", "var", "var", "var", "const", "array", "scalar"] + (["intarray"] if allow_int else [])
